@@ -28,7 +28,7 @@ func Configs(quick bool) []chw.WriterCfg {
 			{DBTimer: 0.002, DBBulk: 0, ChannelsSample: 1, ChannelsTimeSeries: 1, RetryAttempts: 1},
 			{DBTimer: 0.02, DBBulk: 1 << 10, ChannelsSample: 2, ChannelsTimeSeries: 2, RetryAttempts: 2},
 			{DBTimer: 0.2, DBBulk: 1 << 10, ChannelsSample: 4, ChannelsTimeSeries: 1, RetryAttempts: 5},
-			{DBTimer: 0.005, DBBulk: 64 << 10, ChannelsSample: 2, ChannelsTimeSeries: 4, RetryAttempts: 2, ClusterName: "cl"},
+			{DBTimer: 0.005, DBBulk: 64 << 10, ChannelsSample: 2, ChannelsTimeSeries: 4, RetryAttempts: 3, ClusterName: "cl"},
 			{DBTimer: 0.001, DBBulk: 0, ChannelsSample: 4, ChannelsTimeSeries: 4, RetryAttempts: 3},
 			{DBTimer: 0.05, DBBulk: 64 << 10, ChannelsSample: 1, ChannelsTimeSeries: 2, RetryAttempts: 1},
 		}
